@@ -184,6 +184,38 @@ func (a *Apps) Load(mf mechanisms.MechanismFactory, sets RuleSetFor) error {
 	return nil
 }
 
+// LoadUpdate is Load followed by an update of every rule set to a second version (same sources).
+func (a *Apps) LoadUpdate(mf mechanisms.MechanismFactory, before, after RuleSetFor) error {
+	for _, tgt := range []struct {
+		mode config.OperationMode
+		ex   *SwapExec
+	}{{config.DecisionMode, a.execDec}, {config.ProxyMode, a.execPrx}, {config.DecisionMode, a.execEnv}} {
+		rf, err := rules.NewRuleFactory(mf, a.Conf, tgt.mode, zerolog.Nop())
+		if err != nil {
+			return fmt.Errorf("rule factory: %w", err)
+		}
+
+		repo := rules.VerifNewRepository(rf)
+		proc := rules.NewRuleSetProcessor(repo, rf)
+
+		for _, rs := range before(tgt.mode) {
+			if err := proc.OnCreated(rs); err != nil {
+				return fmt.Errorf("loading rule set %s: %w", rs.Source, err)
+			}
+		}
+
+		for _, rs := range after(tgt.mode) {
+			if err := proc.OnUpdated(rs); err != nil {
+				return fmt.Errorf("updating rule set %s: %w", rs.Source, err)
+			}
+		}
+
+		tgt.ex.Cur = rules.VerifNewRuleExecutor(repo)
+	}
+
+	return nil
+}
+
 // Req is one logical request.
 type Req struct {
 	Method   string
